@@ -1,7 +1,176 @@
-/- Line-protocol engine for C08 — stub, to be filled in. -/
-import CV.Proto
+/-
+Line-protocol engine for C08 (ACL decisions). See go/overlay/internal/verifharness/c08.
+
+Tokens
+  policy   `<acl><keyring><operator><mesh><peering>` (one level char each) followed by `,rule` …
+  rule     `<kind><0|1 prefix><policy char><intentions char>;<name>`
+  level    `-` empty string, `!` not a level, `d r l w` (any letter case) the level
+  kind     `a` agent `k` key `n` node `s` service `x` session `e` event `q` query
+  policies policy tokens joined by `|`, `-` = none
+  svc id   `<name>;<dc>+<dc>…`     node id `<name>;<dc>`
+Operations
+  auth <a|d|m> <policies> <names>                 stateless: parse, merge, load, decide
+  reset <a|d|m> <dc>                               new store, new caches
+  pol <id> <modidx> <tag> <dcs> <policy>  | delpol <id>
+  role <id> <policy ids> <svc ids> <node ids>  | tok <secret> <policy ids> <role ids> <svc ids> <node ids>
+  compile <policy ids> <names>                     ACLPolicies.Compile through the shared caches
+  resolve <secret> <names>                         ACLResolver.ResolveToken through the shared caches
+  purge                                            empty the caches
+-/
+import CV.Acl
 namespace CV.Engine.C08
-open CV
-def step (_ : Unit) (_toks : List String) : Unit × String := ((), "bad-op")
-def engine : Engine := { State := Unit, init := (), step := step }
+open CV CV.Acl
+
+def lvlOfChar (c : Char) : Option PStr :=
+  match c.toLower with
+  | '-' => some .empty
+  | '!' => some .bad
+  | 'd' => some (.lvl .deny)
+  | 'r' => some (.lvl .read)
+  | 'l' => some (.lvl .list)
+  | 'w' => some (.lvl .write)
+  | _ => none
+
+def kindOfChar : Char → Option Kind
+  | 'a' => some .agent | 'k' => some .key | 'n' => some .node | 's' => some .service
+  | 'x' => some .session | 'e' => some .event | 'q' => some .query | _ => none
+
+def parseRule (tok : String) : Option Rule :=
+  match tok.splitOn ";" with
+  | [h, n] =>
+    match h.toList with
+    | [k, p, a, i] => do
+      let kind ← kindOfChar k
+      let pfx ← decBool (String.singleton p)
+      let pol ← lvlOfChar a
+      let intent ← lvlOfChar i
+      let name ← decB n
+      pure ⟨kind, pfx, name, pol, intent⟩
+    | _ => none
+  | _ => none
+
+def parsePolicy (tok : String) : Option Policy :=
+  match tok.splitOn "," with
+  | [] => none
+  | h :: rs =>
+    match h.toList with
+    | [a, k, o, m, p] => do
+      let acl ← lvlOfChar a
+      let keyring ← lvlOfChar k
+      let operator ← lvlOfChar o
+      let mesh ← lvlOfChar m
+      let peering ← lvlOfChar p
+      let rules ← rs.mapM parseRule
+      pure ⟨acl, keyring, operator, mesh, peering, rules⟩
+    | _ => none
+
+def parsePolicies (tok : String) : Option (List Policy) :=
+  if tok == "-" then some [] else (tok.splitOn "|").mapM parsePolicy
+
+def parseStatic (tok : String) : Option Static :=
+  if tok == "a" then some .allowAll else if tok == "d" then some .denyAll
+  else if tok == "m" then some .manageAll else none
+
+def parseNames (tok : String) : Option (List Bytes) := (decList tok).mapM decB
+
+def parseSvc (tok : String) : Option SvcId :=
+  match tok.splitOn ";" with
+  | [n, d] => do
+    let name ← decB n
+    let dcs ← (if d == "" then some [] else (d.splitOn "+").mapM decB)
+    pure ⟨name, dcs⟩
+  | _ => none
+
+def parseNode (tok : String) : Option NodeId :=
+  match tok.splitOn ";" with
+  | [n, d] => do pure ⟨← decB n, ← decB d⟩
+  | _ => none
+
+def decChar : Dec → Char | .allow => 'a' | .deny => 'd' | .dflt => 'u'
+
+def namelessReqs : List Req :=
+  [.aclRead, .aclWrite, .snapshot, .intentionDefaultAllow, .keyringRead, .keyringWrite, .meshRead, .meshWrite,
+   .peeringRead, .peeringWrite, .operatorRead, .operatorWrite, .nodeReadAll, .serviceReadAll, .serviceWriteAny,
+   .nodeRead [120] true, .serviceRead [120] true]
+
+def namedReqs (n : Bytes) : List Req :=
+  [.agentRead n, .agentWrite n, .eventRead n, .eventWrite n, .intentionRead n, .intentionWrite n,
+   .tpRead n, .tpWrite n, .keyRead n, .keyList n, .keyWrite n, .keyWritePrefix n, .nodeRead n false, .nodeWrite n,
+   .queryRead n, .queryWrite n, .serviceRead n false, .serviceReadPrefix n, .serviceWrite n,
+   .sessionRead n, .sessionWrite n]
+
+/-- the decision vector: nameless requests, then `/` + the named requests for every name -/
+def vector (f : Req → Dec) (names : List Bytes) : String :=
+  String.ofList (namelessReqs.map fun r => decChar (f r)) ++
+    String.join (names.map fun n => "/" ++ String.ofList ((namedReqs n).map fun r => decChar (f r)))
+
+structure St where
+  store : Store
+  caches : Caches
+  dflt : Static
+  dc : Bytes
+
+def St.init : St := ⟨Store.empty, Caches.empty, .denyAll, []⟩
+
+def ok (s : St) : St × String := (s, "ok")
+def bad (s : St) : St × String := (s, "bad-op")
+
+def step (s : St) (toks : List String) : St × String :=
+  match toks with
+  | ["auth", d, ps, ns] =>
+    match parseStatic d, parsePolicies ps, parseNames ns with
+    | some d, some ps, some ns =>
+      match ps.mapM parse with
+      | none => (s, "err:parse")
+      | some pps =>
+        match newPolicyAuthorizer pps with
+        | none => (s, "err:load")
+        | some z => (s, s!"p={vector z.decide ns} c={vector (chain z d) ns}")
+    | _, _, _ => bad s
+  | ["reset", d, dc] =>
+    match parseStatic d, decB dc with
+    | some d, some dc => ok ⟨Store.empty, Caches.empty, d, dc⟩
+    | _, _ => bad s
+  | ["pol", id, mi, tag, dcs, p] =>
+    match decB id, mi.toNat?, tag.toNat?, parseNames dcs, parsePolicy p with
+    | some id, some mi, some tag, some dcs, some p => ok { s with store := s.store.putDoc ⟨id, mi, tag, dcs, p⟩ }
+    | _, _, _, _, _ => bad s
+  | ["delpol", id] =>
+    match decB id with
+    | some id => ok { s with store := s.store.delDoc id }
+    | none => bad s
+  | ["role", id, pids, svcs, nodes] =>
+    match decB id, parseNames pids, (decList svcs).mapM parseSvc, (decList nodes).mapM parseNode with
+    | some id, some pids, some svcs, some nodes => ok { s with store := s.store.putRole ⟨id, pids, svcs, nodes⟩ }
+    | _, _, _, _ => bad s
+  | ["tok", sec, pids, rids, svcs, nodes] =>
+    match decB sec, parseNames pids, parseNames rids, (decList svcs).mapM parseSvc, (decList nodes).mapM parseNode with
+    | some sec, some pids, some rids, some svcs, some nodes =>
+      ok { s with store := s.store.putToken ⟨sec, pids, rids, svcs, nodes⟩ }
+    | _, _, _, _, _ => bad s
+  | ["compile", ids, ns] =>
+    match parseNames ids, parseNames ns with
+    | some ids, some ns =>
+      let out := compile s.caches (ids.filterMap s.store.doc)
+      let s' := { s with caches := out.caches }
+      match out.authz with
+      | none => (s', s!"h={encBool out.hit} ph={out.parsedHits} err:compile")
+      | some z => (s', s!"h={encBool out.hit} ph={out.parsedHits} p={vector z.decide ns}")
+    | _, _ => bad s
+  | ["resolve", sec, ns] =>
+    match decB sec, parseNames ns with
+    | some sec, some ns =>
+      let (c', r) := resolveToken s.store s.dc s.caches sec
+      let s' := { s with caches := c' }
+      match r with
+      | .error .root => (s', "err:root")
+      | .error .notFound => (s', "err:notfound")
+      | .error .compile => (s', "err:compile")
+      | .ok z => (s', s!"c={vector (chain z s.dflt) ns}")
+    | _, _ => bad s
+  | ["purge"] => ok { s with caches := Caches.empty }
+  | _ => bad s
+
+def engine : Engine := { State := St, init := St.init, step := step }
+
 end CV.Engine.C08
